@@ -50,6 +50,119 @@ def jobs(tier):
     return js, pub
 
 
+BITS = {"u16": 16, "i16": 16, "u32": 32, "i32": 32, "u64": 64, "i64": 64, "u128": 128, "i128": 128}
+
+
+def limbs(v, w):
+    return [(v >> (8 * i)) & 255 for i in range((w + 7) // 8)]
+
+
+def wide_jobs(tier, seed):
+    """Truncate programs at 16..128 bits: boundary and random inputs of the documented range, every k class, general divisors"""
+    import random
+    rng = random.Random(seed * 7 + 5)
+    n = 12 if tier == "quick" else 24
+    js, jid = [], 0
+    cfgs = [([0], [1], "Simple"), ([2], [0, 2], "Default"), (["sh"], [], "Extreme"), ([1], [], "Simple")]
+    for st, w in BITS.items():
+        sg = st[0] == "i"
+        m = 1 << w
+        lo, hi = (-(m // 4), m // 4) if sg else (0, m // 2)
+        ks = sorted({1, 2, 3, w // 2 - 1, w // 2, w - 8, w - 3, w - 2}) if tier == "thorough" else sorted({1, 3, w // 2, w - 3, w - 2})
+        scales = [(1 << k, True) for k in ks]
+        if sg:
+            scales += [(d, False) for d in ([3, 10, 1000, (1 << (w // 2)) + 1, 3 << (w - 6)] if tier == "thorough" else [3, 1000, (1 << (w // 2)) + 1])]
+        for ci, (scale, pow2) in enumerate(scales):
+            for ow, outs, mode in (cfgs if tier == "thorough" else [cfgs[ci % 4], cfgs[(ci + 1) % 4]]):
+                vals = {lo, lo + 1, hi - 1, hi - 2, 0, 1, scale - 1, scale, scale + 1, 2 * scale - 1, hi - hi % scale - 1, hi - hi % scale}
+                if sg:
+                    vals |= {-1, -scale, -scale + 1, -scale - 1, lo - lo % scale, lo - lo % scale + 1}
+                vals = [v for v in vals if lo <= v < hi]
+                while len(vals) < n:
+                    r = rng.random()
+                    v = rng.randrange(lo, hi) if r < 0.5 else rng.randrange(max(lo, -(1 << 20)), min(hi, 1 << 20)) if r < 0.8 else rng.randrange(lo // scale, max(lo // scale + 1, hi // scale)) * scale + rng.choice([-1, 0, 1])
+                    if lo <= v < hi:
+                        vals.append(v)
+                rng.shuffle(vals)
+                vals = vals[:n]
+                jid += 1
+                t = A(st, [n])
+                js.append({"id": jid, "name": "trunc_%s_%s" % (st, ("2^%d" % (scale.bit_length() - 1)) if pow2 else str(scale)), "family": "trunc",
+                           "prog": prog([inp(t), nd("Truncate", [1], scale_s=str(scale))]), "owners": ow, "outs": outs, "mode": mode,
+                           "inputs": [[str(v % m) for v in vals]], "seeds": [seed % 1000 + s for s in range(2 if tier == "quick" else 6)], "junk": ["random"],
+                           "w": w, "sg": sg, "pow2": pow2, "s": limbs(scale, w), "pre": [limbs(v % m, w) for v in vals]})
+        # the truncated value is computed from two private inputs (sum in range)
+        if sg or st in ("u64",):
+            scale = 1 << (w // 2 + 1)
+            a = [rng.randrange(lo // 2, hi // 2) for _ in range(n)]
+            b = [rng.randrange(lo // 2, hi // 2) for _ in range(n)]
+            jid += 1
+            t = A(st, [n])
+            js.append({"id": jid, "name": "trunc_sum_%s" % st, "family": "trunc",
+                       "prog": prog([inp(t), inp(t), nd("Add", [1, 2]), nd("Truncate", [3], scale_s=str(scale))]), "owners": [0, 1], "outs": [2], "mode": "Simple",
+                       "inputs": [[str(v % m) for v in a], [str(v % m) for v in b]], "seeds": [seed % 1000 + s for s in range(2)], "junk": ["random"],
+                       "w": w, "sg": sg, "pow2": True, "s": limbs(scale, w), "pre": [limbs((x + y) % m, w) for x, y in zip(a, b)]})
+    return js
+
+
+def wide_phase(chk):
+    """C05 at 16..128 bits: the compiled Truncate graphs run as three parties (and on one store) on the real evaluator;
+    TLC (spec/Trunc3Trace.tla, relation TruncLimb!ElemOK, proved equal to ABY3Run!TruncOutcomeOK at width 8 by
+    spec/Trunc3Lemma.tla) judges every recorded outcome."""
+    res = lib.tlc("Trunc3Lemma", "MC_Trunc3Lemma%s.cfg" % ("_thorough" if chk.tier == "thorough" else ""), workers=8, timeout=3000)
+    chk.add_tlc(res, "trunc_limb_lemma")
+    if not res.ok:
+        if res.violated:
+            raise lib.ToolError("Trunc3Lemma: the limb relation differs from ABY3Run!TruncOutcomeOK:\n" + res.trace[-1500:])
+        raise lib.ToolError("Trunc3Lemma did not complete: %s" % res.error)
+    js = wide_jobs(chk.tier, chk.seed)
+    jp, op, tp = chk.path("wide.jobs.ndjson"), chk.path("wide.run3.ndjson"), chk.path("wide.trace.ndjson")
+    lib.write_ndjson(jp, [{k: j[k] for k in ("id", "name", "family", "prog", "owners", "outs", "mode", "inputs", "seeds", "junk")} for j in js])
+    p = lib.harness(["run3", jp, op], timeout=3000)
+    failed = [l for l in p.stderr.splitlines() if l.startswith("job ")]
+    byid = {j["id"]: j for j in js}
+    recs = lib.read_ndjson(op)
+    for l in failed:
+        # every job is inside the documented domain: a compilation or evaluation error is an outcome of the code
+        jid = int(l.split()[1].rstrip(":"))
+        j = byid[jid]
+        chk.violation({"phase": "wide-truncate", "st_bits": j["w"], "signed": j["sg"], "pow2": j["pow2"], "why": "error"},
+                      {"job": {k: j[k] for k in ("id", "name", "prog", "owners", "outs", "mode", "inputs")}, "harness": l})
+    if not recs:
+        raise lib.ToolError("run3 produced no records for the wide truncation phase: " + " | ".join(failed[:3]))
+    trace = []
+    for r in recs:
+        j = byid[r["id"]]
+        trace.append({"id": r["id"], "outs": r["outs"], "ok": r["ok"], "out": r["out"], "single_ok": r["single_ok"], "single": r["single"],
+                      "w": j["w"], "sg": j["sg"], "pow2": j["pow2"], "s": j["s"], "pre": j["pre"]})
+    lib.write_ndjson(tp, trace)
+    res = lib.tlc("Trunc3Trace", "MC_Trunc3Trace.cfg", env={"TRACE": tp}, workers=8, timeout=2400, coverage=False)
+    chk.add_tlc(res, "trunc_wide")
+    if not res.ok:
+        raise lib.ToolError("Trunc3Trace did not complete: %s" % res.error)
+    import re
+    seen = set()
+    for l in res.printed:
+        mm = re.match(r'<<"BAD([13])", (\d+)>>', l)
+        if not mm:
+            continue
+        r = recs[int(mm.group(2)) - 1]
+        j = byid[r["id"]]
+        key = (mm.group(1), j["name"], tuple(map(str, j["owners"])), tuple(j["outs"]))
+        if key in seen:
+            continue
+        seen.add(key)
+        chk.violation({"phase": "wide-truncate", "store": "three" if mm.group(1) == "3" else "single", "st_bits": j["w"], "signed": j["sg"], "pow2": j["pow2"], "why": "outcome"},
+                      {"job": {k: j[k] for k in ("id", "name", "prog", "owners", "outs", "mode", "inputs", "w", "sg", "pow2")},
+                       "seed": r["seed"], "junk": r["junk"], "pre": j["pre"], "out": r["out"], "ok": r["ok"], "single": r["single"], "scale_limbs": j["s"]})
+    chk.traces += len(recs)
+    chk.note("wide_truncate_runs", len(recs))
+    chk.note("wide_truncate_programs", len(js))
+    chk.note("wide_truncate_elements", sum(len(byid[r["id"]]["pre"]) for r in recs))
+    if js:
+        chk.sample({"wide_truncate_job": {k: js[0][k] for k in ("name", "owners", "outs", "mode", "w", "sg", "pow2")}, "inputs": js[0]["inputs"][0][:4]})
+
+
 def run(chk):
     tier = chk.tier
     js, pub = jobs(tier)
@@ -116,8 +229,9 @@ def run(chk):
                     chk.violation({"phase": "plaintext-truncate", "st": r["st"]},
                                   {"case": {k: r[k] for k in ("id", "rec", "ats", "ty", "mode")}, "argument_values": r.get("exact"),
                                    "observed": {"res": r["res"], "out": r["out"]}})
+    wide_phase(chk)
     for r in recs[:4]:
         chk.sample(dict(mc.describe(r), mpc_nodes=len(r["mpc"]), prf_nodes=sum(1 for n in r["mpc"] if n["op"] == "PRF")))
     chk.note("rule", "scalar programs: every residue of the input is explored (ExhaustInputs) with %d sampled idealised tapes per input; array programs: inputs and tapes sampled" % runs)
-    chk.assumptions += ["exact 8-bit types only; wider types share the protocol code but are not interpreted by TLC (32-bit integers)",
+    chk.assumptions += ["TLC interprets the compiled graphs at the exact 8-bit types only (32-bit integers); at 16..128 bits the compiled graphs are executed by the three-party executor on the real evaluator and TLC judges the recorded outcomes on limbs (Trunc3Trace)",
                         "for general divisors the documented wrap-around of the additive shares (k = +-1) is accepted as an outcome; its probability is not measured"]
